@@ -24,7 +24,7 @@ claim("C03", "exploration",
       "proptest-generated trees/configurations; oracle = reference model (content partition + replica rule) compared set-wise", "DESIGN.md 4 C03")
 
 claim("C06", "exploration",
-      "Generated link structures (hard-link sets inside/across roots, file and directory symlinks, overlapping roots, root names that are string prefixes of each other) x 9 root spellings x rf-over/rf-under/unique/-H/-I/-S/-L; reported classes must equal the reference replica-count model, and canonical / alternative spellings of the same roots, and the same roots fed through --stdin, must give identical groups and statistics (metamorphic).",
+      "Generated link structures (hard-link sets inside/across roots, file and directory symlinks, overlapping roots, root names that are string prefixes of each other, isolated roots of equal depth and equal last name) x 9 root spellings x rf-over/rf-under/unique/-H/-I/-S/-L; reported classes must equal the reference replica-count model, and canonical / alternative spellings of the same roots, and the same roots fed through --stdin, must give identical groups and statistics (metamorphic).",
       "Trusts the reference replica-count model written from README section 'Handling links' and --help; root arguments are directories.",
       "proptest generation; oracle = reference replica-count model + metamorphic relation over root spellings", "DESIGN.md 4 C06")
 claim("C13", "exploration",
@@ -49,7 +49,7 @@ claim("C11", "exploration",
       "Open known findings for --symbolic-links combined with --isolate / cross-device move. `dedupe` not compared (reflink unsupported here). atime-based priorities replaced (reads between runs change atimes).",
       "proptest generation; differential oracle: dry-run script vs real run vs bash execution of the script", "DESIGN.md 4 C11")
 claim("C18", "exploration",
-      "Generated scenarios x `move DIR` with DIR outside/inside the scanned tree, on tmpfs->ext4 (EXDEV copy fallback) and on a loop-mounted ext4 that fclones sees as another mount (copy path), absolute or relative, with obstacles planted from a dry run (colliding file, directory at destination, file at parent, dangling symlink); in a third of the cases the k-th mutating libc call (k=1..24) fails with EIO/ENOSPC/EPERM/EINVAL through the LD_PRELOAD interposer; DIR is sometimes spelled `shelf/../dups` through a symlink. Inventory oracle: pre-existing entries under DIR untouched, vanished sources complete at DIR/<abs path> which did not exist before, injective count, unmoved sources untouched with a warning.",
+      "Generated scenarios x `move DIR` with DIR outside/inside the scanned tree, on tmpfs->ext4 (EXDEV copy fallback) and on a loop-mounted ext4 that fclones sees as another mount (copy path), absolute, relative to the tree root or relative to another working directory than the report's base directory, with obstacles planted from a dry run (colliding file, directory at destination, file at parent, dangling symlink); in a third of the cases the k-th mutating libc call (k=1..24) fails with EIO/ENOSPC/EPERM/EINVAL through the LD_PRELOAD interposer; DIR is sometimes spelled `shelf/../dups` through a symlink. Inventory oracle: pre-existing entries under DIR untouched, vanished sources complete at DIR/<abs path> which did not exist before, injective count, unmoved sources untouched with a warning.",
       "One injected failure per run at a generated position (C05 enumerates every position); after an injected failure an incomplete copy may remain under DIR. Loop mount needs root; absent => those cases fall back to the plain ext4 target.",
       "proptest generation; oracle = invariants over before/after inventories", "DESIGN.md 4 C18")
 claim("C20", "exploration",
@@ -58,7 +58,7 @@ claim("C20", "exploration",
       "proptest generation; oracle = inventory comparison against the dry-run intention under foreign locks", "DESIGN.md 4 C20")
 
 claim("C10", "exploration",
-      "In-process through fclones' public ReportWriter/open_report: bounded-exhaustive over all strings of <=3/<=4 symbols of the 20-symbol hostile alphabet placed as first/middle/last path component, command argument and base-dir component, in text and JSON; random reports (arbitrary non-NUL bytes, 0-6 groups plus groups of 1023-2050 files, ms timestamps with offsets, statistics, 16/32/64-byte hashes) with shrinking; a quarter of the random reports additionally cut at every byte offset / line boundary: only complete original groups may be yielded and no clean end inside a group. Oracle = field-by-field round trip.",
+      "In-process through fclones' public ReportWriter/open_report: bounded-exhaustive over all strings of <=3/<=4 symbols of the 20-symbol hostile alphabet placed as first/middle/last path component, command argument and base-dir component, in text and JSON; random reports (arbitrary non-NUL bytes, 0-6 groups plus groups of 1023-2050 files, ms timestamps with offsets, statistics, 16/32/64-byte hashes) with shrinking; a quarter of the random reports additionally cut at every byte offset / line boundary: only complete original groups may be yielded and no clean end inside a group, whether the stream ends there with EOF or with a read error (EIO). Oracle = field-by-field round trip.",
       "Links the fclones library built from /repo (verif cfg re-exports Arg only). Absolute paths, non-empty NUL-free components and arguments. A cut removing only the final newline may be accepted.",
       "bounded-exhaustive enumeration + proptest random generation; round-trip and truncation oracles; thorough tier adds a coverage-guided libFuzzer campaign (fuzz_report, same oracles inside the target)", "DESIGN.md 4 C10")
 claim("C16", "exploration",
@@ -71,7 +71,7 @@ claim("C05", "fault_enumeration",
       "Faults and kills happen at libc call boundaries; FICLONE success is emulated by the interposer (a model of a reflink file system, not fclones code); raw syscalls would escape the interposer (the import table shows none for file operations).",
       "fault enumeration: recorded call sequence x {kill before, kill after, errno, double fault} on proptest-generated scenarios; state-based oracle", "DESIGN.md 4 C05")
 claim("C07", "exploration",
-      "Generated trees x group with every transform I/O mode, --no-copy, --in-place, --cache (XDG_CACHE_HOME private / unset / empty / relative), -o, link options, working directory outside or inside the scanned tree, and helper programs that read all/part/none of the input, fail, never open $OUT, or rewrite the file they are given as $IN (only without --no-copy, where that is fclones' private copy), with the k-th mutating call below TMPDIR failing (ENOSPC/EIO) in a quarter of the $IN / --in-place cases, TMPDIR unusable, or an additional scanned root named fclones-data inside TMPDIR; and all five dedupe operations with --dry-run. Strict inventory equality (paths, bytes, inodes, link counts, symlink targets, mtimes, modes), zero mutating libc calls below the scanned tree in the LD_PRELOAD trace of fclones and its children, and no fclones-* leftovers in TMPDIR.",
+      "Generated trees x group with every transform I/O mode, --no-copy, --in-place, --cache (XDG_CACHE_HOME private / unset / empty / relative), -o, link options, working directory outside or inside the scanned tree, and helper programs that read all/part/none of the input, fail, never open $OUT, or rewrite the file they are given as $IN or leave a by-product beside it (only without --no-copy, where that is fclones' private copy), read-only (0444) files in the tree, with the k-th mutating call below TMPDIR failing (ENOSPC/EIO) in a quarter of the $IN / --in-place cases, TMPDIR unusable, or an additional scanned root named fclones-data inside TMPDIR; and all five dedupe operations with --dry-run. Strict inventory equality (paths, bytes, inodes, link counts, symlink targets, mtimes, modes), zero mutating libc calls below the scanned tree in the LD_PRELOAD trace of fclones and its children, and no fclones-* leftovers in TMPDIR.",
       "Mutations observed at libc level; helpers never write to $IN so any input change is fclones' own.",
       "proptest generation; oracle = inventory equality + system-call trace invariant (LD_PRELOAD interposer)", "DESIGN.md 4 C07")
 
@@ -85,7 +85,7 @@ claim("C04", "exploration",
       "Edits kept >= 30 ms away from fclones' clock reads (tick-granular kernel mtimes); pause granularity is a libc call; mtime-preserving replacement excluded by statement.",
       "proptest-generated histories with schedule control (pause points) ; oracle = inventory invariants around the dedupe run", "DESIGN.md 4 C04")
 claim("C12", "exploration",
-      "Generated histories of 1-6 (edits ; run) steps over files sharing long prefixes/suffixes: in-place same-length rewrites with a newer or an older mtime, copies of other files' content, append/truncate with or without mtime change, rename, delete+recreate (inode reuse on ext4, counted), hard links, SIGKILL of a running cached group, a same-length rewrite applied while a cached run is blocked by the interposer at a read-side call on that very file, creation of the key file without which the `needkey` transform fails after partial output, twin tmpfs file systems with equal inode numbers / lengths / mtimes and different bytes; options change on some steps (incl. the same transform program with other arguments). After every step the cached run (cold and warm) must print byte-identical report bodies (hashes, statistics, groups) to the uncached run with the same options.",
+      "Generated histories of 1-6 (edits ; run) steps over files sharing long prefixes/suffixes: in-place same-length rewrites with a newer or an older mtime, copies of other files' content, append/truncate with or without mtime change, rename, delete+recreate (inode reuse on ext4, counted), hard links, SIGKILL of a running cached group, a same-length rewrite applied while a cached run is blocked by the interposer at a read-side call on that very file, creation of the key file without which the `needkey` transform fails after partial output, twin tmpfs file systems with equal inode numbers / lengths / mtimes and different bytes; a second stage with XDG_CACHE_HOME on an 8-384 KiB tmpfs that runs full while 1900-3600 hashes are stored; options change on some steps (incl. the same transform program with other arguments). After every step the cached run (cold and warm) must print byte-identical report bodies (hashes, statistics, groups) to the uncached run with the same options.",
       "Premise of the property is enforced by the harness: every content change gets a fresh mtime (1 ms logical clock forwards, or a fresh value below all earlier ones) or a different length.",
       "proptest-generated histories; differential oracle against the uncached tool", "DESIGN.md 4 C12")
 
